@@ -9,7 +9,8 @@
   the extractor (`/verif/extract/mapranges.go`, emitter `MapRanges`) recognises in the Go source.
 
   Also here: the comparator of `sortedMapKeys` (extension.go), the for-loop over a map
-  (node.go `renderForLoop`, map case), and both versions of `convertDateFormat`.
+  (node.go `renderForLoop`, map case), `merge()` over a reflected map (visits `sortedMapKeys`),
+  the hash literal (evaluated in source order since 4cfb654), and both versions of `convertDateFormat`.
 
   Core Lean only.
 -/
@@ -130,32 +131,47 @@ def bytesLt : Bytes → Bytes → Bool
   | a :: as, c :: cs => a.toNat < c.toNat || (a.toNat == c.toNat && bytesLt as cs)
 
 /-- A reflect map key as `sortedMapKeys` sees it.  `a.Kind()` is the kind of the map's *key type*, so all
-    keys of one map fall into the same class:
+    keys of one map fall into the same class (`cls`):
     * `int`   — key types of kind Int … Int64  (compared with `a.Int() < b.Int()`)
     * `uint`  — Uint … Uintptr                 (`a.Uint() < b.Uint()`)
+    * `float` / `nan` — Float32, Float64.  `float r` is a key that is not NaN, named by its position `r` in
+      the order of the reals (−Inf < … < +Inf; +0 and −0 are one map key); `nan i` is a NaN key.  A map can
+      hold several NaN keys (NaN ≠ NaN); `i` tells those entries apart, but nothing else does: they all
+      print `NaN` and `MapIndex` finds none of them.  Comparator (c0e7993): NaN keys first, else `<`.
     * `str`   — String                         (`a.String() < b.String()`)
     * `other` — every other key type (interface{}, bool, struct, array, pointer, chan): compared by
-      `fmt.Sprint(a.Interface()) < fmt.Sprint(b.Interface())`.  `ident` tells Go values apart,
-      `printed` is what `fmt.Sprint` returns.  Distinct values may print alike (int 1, "1", int64 1, 1.0).
-    Float keys (`a.Float() < b.Float()`) are not modelled (no NaN reasoning in core Lean); see report. -/
+      `fmt.Sprint(k)`, then `fmt.Sprintf("%T", k)`, then `fmt.Sprintf("%#v", k)` (2cbbaa1, 5b1997c).
+      `ident` tells Go values apart; `selfEq` is `k == k` (false for a NaN inside an interface, an array
+      or a struct: such a key's entry cannot be looked up); `printed`, `tyName`, `goSyntax` are the three
+      strings.  Distinct values may agree on all three (two pointers to equal structs). -/
 inductive GoKey where
   | int (i : Int)
   | uint (n : Nat)
+  | float (r : Int)
+  | nan (ident : Nat)
   | str (s : Bytes)
-  | other (ident : Nat) (printed : Bytes)
+  | other (ident : Nat) (selfEq : Bool) (printed tyName goSyntax : Bytes)
   deriving DecidableEq, Repr
 
+/-- the reflect.Kind class of the map's key type -/
 def GoKey.cls : GoKey → Nat
-  | .int _ => 0 | .uint _ => 1 | .str _ => 2 | .other _ _ => 3
+  | .int _ => 0 | .uint _ => 1 | .float _ => 2 | .nan _ => 2 | .str _ => 3 | .other .. => 4
 
-/-- the `less` closure of `sortedMapKeys`.  The last case (keys of different kinds) cannot occur for the
-    keys of one Go map (`Homogeneous`); it is filled in so that `keyLess` is a strict weak order on all
-    of `GoKey` and the reference sort below is total. -/
+/-- the `less` closure of `sortedMapKeys`, case by case as in extension.go.  The last case (keys of
+    different kinds) cannot occur for the keys of one Go map (`Homogeneous`); it is filled in so that
+    `keyLess` is a strict weak order on all of `GoKey` and the reference sort below is total. -/
 def keyLess : GoKey → GoKey → Bool
   | .int a, .int c => a < c
   | .uint a, .uint c => a < c
+  -- af, bf := a.Float(), b.Float(); if af != af || bf != bf { return af != af && bf == bf }; return af < bf
+  | .float a, .float c => a < c
+  | .nan _, .float _ => true
+  | .float _, .nan _ => false
+  | .nan _, .nan _ => false
   | .str a, .str c => bytesLt a c
-  | .other _ p, .other _ q => bytesLt p q
+  -- if as != bs { return as < bs }; if at != bt { return at < bt }; return ag < bg
+  | .other _ _ p t g, .other _ _ q u h =>
+      if p ≠ q then bytesLt p q else if t ≠ u then bytesLt t u else bytesLt g h
   | a, c => a.cls < c.cls
 
 /-- all keys of one map have the same reflect.Kind -/
@@ -163,24 +179,55 @@ def Homogeneous (ks : List GoKey) : Prop := ∀ a ∈ ks, ∀ c ∈ ks, a.cls = 
 
 /-- keys of a kind that `sortedMapKeys` compares by value -/
 def GoKey.byValue : GoKey → Bool
-  | .other _ _ => false
+  | .other .. => false
   | _ => true
 
-def GoKey.printed : GoKey → Bytes
-  | .other _ p => p
-  | _ => []
+/-- `k == k`: false exactly for keys that contain a NaN; `MapIndex` finds no entry for them -/
+def GoKey.selfEq : GoKey → Bool
+  | .nan _ => false
+  | .other _ se _ _ _ => se
+  | _ => true
+
+/-- What rendering can observe of a key.  Keys that are not equal to themselves lose their identity:
+    their entry is unreachable (`mapIndex`), and their printed forms are all the comparator's own
+    criteria.  For every other key `obs k = k`. -/
+def GoKey.obs : GoKey → GoKey
+  | .nan _ => .nan 0
+  | .other _ false p t g => .other 0 false p t g
+  | k => k
 
 /-- executable reference sort used by the driver (any `SortSpec` function gives the same result where
     the order is determined) -/
 def sortKeys (ks : List GoKey) : List GoKey := ks.mergeSort (fun a c => !keyLess c a)
 
-/-- node.go `renderForLoop`, map case: visit the keys in `sortedMapKeys` order, render the body per entry -/
-def renderForMap {ν : Type} (sort : List GoKey → List GoKey) (body : GoKey → ν → Bytes)
+/-- `rv.MapIndex(key)`: the entry stored under the key, nothing for a key that is not equal to itself -/
+def mapIndex {ν : Type} (es : List (GoKey × ν)) (k : GoKey) : Option ν :=
+  if k.selfEq then ofEntries es k else none
+
+/-- node.go `renderForLoop`, map case: visit the keys in `sortedMapKeys` order, render the body per entry;
+    the value variable is nil (`none`) when `MapIndex` finds nothing.  The body sees `obs k`. -/
+def renderForMap {ν : Type} (sort : List GoKey → List GoKey) (body : GoKey → Option ν → Bytes)
     (es : List (GoKey × ν)) : Bytes :=
-  (sort (es.map Prod.fst)).flatMap fun k =>
-    match ofEntries es k with
-    | some v => body k v
-    | none => []
+  (sort (es.map Prod.fst)).flatMap fun k => body k.obs (mapIndex es k)
+
+/-- extension.go `functionMerge` on a reflected map (43314f9, c0e7993):
+    `for _, key := range sortedMapKeys(rv) { keyStr := toString(key.Interface()); if entry := rv.MapIndex(key); entry.IsValid() { result[keyStr] = entry.Interface() } }`;
+    `g` is `toString` of the key (a function of what can be observed of it) -/
+def mergeStep {ν κ' : Type} [DecidableEq κ'] (g : GoKey → κ') (es : List (GoKey × ν)) (m : GoMap κ' ν) (k : GoKey) : GoMap κ' ν :=
+  match mapIndex es k with
+  | some v => m.insert (g k.obs) v
+  | none => m
+
+def mergeSorted {ν κ' : Type} [DecidableEq κ'] (sort : List GoKey → List GoKey) (g : GoKey → κ')
+    (dst : GoMap κ' ν) (es : List (GoKey × ν)) : GoMap κ' ν :=
+  (sort (es.map Prod.fst)).foldl (mergeStep g es) dst
+
+/-- render.go, hash literal since 4cfb654: the items are evaluated in *source order* (`n.order`), each
+    stored under `ToString(eval key)`; no iteration order is involved any more — `items` is the literal
+    as written.  (The loop body is that of `evalKeyedCopy`.) -/
+def evalHashLiteral {κ ν κ' ν' ε : Type} [DecidableEq κ'] (ev : κ × ν → Except ε (κ' × ν'))
+    (items : List (κ × ν)) : Except ε (GoMap κ' ν') :=
+  evalKeyedCopy ev GoMap.empty items
 
 /-! ## convertDateFormat -/
 
@@ -241,14 +288,15 @@ def RawSite.schema (s : RawSite) : String := s.2.2.2.2.2.1
 
 inductive Schema where
   | copyAll | deleteAll | collectThenSort | collectSortBy | anyMatch | minKey | uniformStore | evalCopyAll
-  | keyedCopy | evalKeyedCopy | orderSensitive | unknown
+  | keyedCopy | evalKeyedCopy | guardedFallback | orderSensitive | unknown
   deriving DecidableEq, Repr
 
 def Schema.ofString : String → Schema
   | "copyAll" => .copyAll | "deleteAll" => .deleteAll | "collectThenSort" => .collectThenSort
   | "collectSortBy" => .collectSortBy | "anyMatch" => .anyMatch | "minKey" => .minKey
   | "uniformStore" => .uniformStore | "evalCopyAll" => .evalCopyAll | "keyedCopy" => .keyedCopy
-  | "evalKeyedCopy" => .evalKeyedCopy | "orderSensitive" => .orderSensitive | _ => .unknown
+  | "evalKeyedCopy" => .evalKeyedCopy | "guardedFallback" => .guardedFallback
+  | "orderSensitive" => .orderSensitive | _ => .unknown
 
 /-- schemas whose result is the same for every iteration order, unconditionally
     (lemmas `schema_*_perm` in TwigProofs/Lemmas/MapOrder.lean) -/
@@ -271,6 +319,12 @@ def allowList : List (String × Nat × String × String) := [
     "extension.go: 'helper for debugging' returning the block names unsorted; it has no caller in the package"),
   ("Engine.GetCachedTemplateNames", 0, "orderSensitive",
     "twig.go: public API returning the names of the cached templates as an unordered list; not part of rendering"),
+  ("RenderContext.EvaluateExpression", 0, "guardedFallback",
+    "render.go, hash literal: the items map is ranged (keys collected, unsorted) only when len(n.order) != len(n.items). \
+     parseMapExpression appends to `order` in step with every store into `items`, and every key is a freshly parsed node, \
+     so the lengths agree for every hash node that comes from template source (`hashOk`: builders inStep/empty/cleared). \
+     Only GetHashNode/NewHashNode(items, line) — exported AST constructors with no caller in the package — build a node \
+     without an order; programmatic AST construction is outside the property, which quantifies over template sources"),
   ("evictLRUEntries", 0, "collectSortBy",
     "render.go: picks attribute-cache entries to evict by access count/recency; the cache only memoises \
      reflection lookups, so which entries are dropped changes later hit/miss, never a looked-up value (property C20)")
@@ -281,18 +335,11 @@ def allowList : List (String × Nat × String × String) := [
     (function, ordinal, schema, exclusion) -/
 def conditionalList : List (String × Nat × String × String) := [
   ("sortedMapKeys", 0, "collectSortBy",
-    "keys are sorted with the comparator `keyLess`; the order is determined for int/uint/string(/float) key \
-     types; for every other key type (interface{}, bool, struct …) keys are compared by fmt.Sprint, so two keys \
-     that print alike (1 and \"1\" in a map[interface{}]…) are left in random order"),
-  ("CoreExtension.functionMerge", 1, "keyedCopy",
-    "merge(): a non-map[string]interface{} base map is copied under toString(key); two keys with the same \
-     string form collide and the survivor depends on iteration order"),
-  ("CoreExtension.functionMerge", 3, "keyedCopy",
-    "merge(): same for the further arguments"),
-  ("RenderContext.EvaluateExpression", 0, "evalKeyedCopy",
-    "hash literal: items live in a map[Node]Node, stored under ToString(eval key); two items whose keys \
-     evaluate to the same string ({'a': 1, 'a': 2}) collide and the survivor depends on iteration order; \
-     if several items fail, which error is returned depends on it too")
+    "keys are sorted with the comparator `keyLess` (tied to the source by `sortCmpOk`).  The order is determined for \
+     int/uint/float/string key types (several NaN keys tie, but are indistinguishable and their entries unreachable) and, \
+     for every other key type, unless two distinct keys that are equal to themselves agree on fmt.Sprint, %T and %#v: \
+     two pointers to equal structs/arrays (fmt prints a top-level pointer to a composite by content).  Known finding \
+     `pointer-key-equal-content`")
 ]
 
 def listed (l : List (String × Nat × String × String)) (s : RawSite) : Bool :=
@@ -314,8 +361,21 @@ def ok (F : List RawSite) : Bool := F.all siteOk
 def sortCmpOk (cases : List (String × String)) (fallback : String) : Bool :=
   cases == [("Int", "Int"), ("Int8", "Int"), ("Int16", "Int"), ("Int32", "Int"), ("Int64", "Int"),
     ("Uint", "Uint"), ("Uint8", "Uint"), ("Uint16", "Uint"), ("Uint32", "Uint"), ("Uint64", "Uint"), ("Uintptr", "Uint"),
-    ("Float32", "Float"), ("Float64", "Float"), ("String", "String")]
-  && fallback == "fmt.Sprint"
+    ("Float32", "FloatNaNFirst"), ("Float64", "FloatNaNFirst"), ("String", "String")]
+  && fallback == "fmt.Sprint then fmt.Sprintf %T then fmt.Sprintf %#v"
+
+/-- `TwigGen.MapRanges.sortedKeyUses`: every call of the sorted-keys function consumes the sorted slice as it
+    is (`for _, key := range sortedMapKeys(rv)` or `keys := sortedMapKeys(rv)`); these loops iterate a
+    slice, so they are not map-iteration sites.  (file, function, ordinal, callee, use) -/
+def sortedUsesOk (fn : String) (uses : List (String × String × Nat × String × String)) : Bool :=
+  uses.all fun u => u.2.2.2.1 == fn && (u.2.2.2.2 == "range" || u.2.2.2.2 == "assign")
+
+/-- `TwigGen.MapRanges.hashBuilders` / `hashNoOrderReach`: every hash node built from template source has
+    `len(order) = len(items)` — the parser fills both in step, the pool hands out empty nodes, release
+    clears both — and a node without an order can only come from the exported constructors. -/
+def hashOk (builders : List (String × String × String)) (reach : List String) : Bool :=
+  builders.all (fun b => ["inStep", "empty", "cleared", "noOrder"].contains b.2.1) &&
+  reach.all (fun f => ["GetHashNode", "NewHashNode"].contains f)
 
 end Twig.MapRanges
 
